@@ -40,6 +40,8 @@ func Selector(r R, phase int, link bool, txKeys []string) sl.Sel {
 		vars = append(vars, RespKeyedVars...)
 	}
 	switch x := r.IntN(20); {
+	case x < 1 && !link:
+		return sl.Sel{Var: "ARGS_COMBINED_SIZE"}
 	case x < 2:
 		s := sl.Sel{Var: Pick(r, SingleVars)}
 		if phase >= 3 && Chance(r, 0.3) {
@@ -107,7 +109,7 @@ func isSingle(v string) bool {
 			return true
 		}
 	}
-	return v == "RESPONSE_STATUS" || v == "MATCHED_VAR" || v == "MATCHED_VAR_NAME"
+	return v == "RESPONSE_STATUS" || v == "MATCHED_VAR" || v == "MATCHED_VAR_NAME" || v == "ARGS_COMBINED_SIZE"
 }
 
 var ModelTrans = []string{"lowercase", "uppercase", "trim", "length", "removeNulls", "hexEncode", "none", "base64Encode", "md5", "sha1", "trimLeft", "trimRight"}
@@ -136,13 +138,18 @@ func Operator(r R, tag string, sels []sl.Sel) *sl.Op {
 	op := &sl.Op{Neg: Chance(r, 0.25)}
 	numeric := len(sels) > 0
 	for _, s := range sels {
-		if !s.Count {
+		if !s.Count && s.Var != "ARGS_COMBINED_SIZE" {
 			numeric = false
 		}
 	}
 	if numeric {
 		op.Name = Pick(r, []string{"eq", "ge", "gt", "le", "lt"})
 		op.Arg = Pick(r, []string{"0", "1", "2", "3"})
+		for _, s := range sels {
+			if s.Var == "ARGS_COMBINED_SIZE" {
+				op.Arg = Pick(r, []string{"0", "4", "8", "12", "20", "40"})
+			}
+		}
 		return op
 	}
 	switch r.IntN(13) {
